@@ -59,3 +59,10 @@ package udp
 //@   entry row init:  [] -> loop 0
 //@   loop 0 row apply: [call o(bind_x)] when fresh(x) -> continue
 //@   loop 0 row done:  [] when fresh(ret) -> exit
+
+// C06 / C03: replies to UDP probes are ICMP messages: the method uses the ICMP processor (with this scan's name)
+//@ func NewScanMethod
+//@   props C06 C03
+//@   observe icmp.NewPacketProcessor
+//@   entry row build: [call icmp.NewPacketProcessor("udp", results, vpnMode) as (pp)] when ret.PacketSource == psrc && isptr(ret.Processor, icmp.PacketProcessor) && asptr(ret.Processor, icmp.PacketProcessor) == pp
+//@                       && isptr(ret.Resulter, icmp.PacketProcessor) && asptr(ret.Resulter, icmp.PacketProcessor) == pp -> exit
